@@ -102,6 +102,48 @@ def run(rep, tier):
                     check_unregister_scan(rep, db, f, inst, rule="R-C13-unregister")
                 except Inconclusive as ex:
                     rep.inconclusive("R-C13-unregister", site(f), str(ex), inst)
+    # who may write the backend's slot tables: registration and unregistration (and helpers reachable only from them).  Any other writer -
+    # a destroy that "hands the entry points back", a reset - frees slots whose owners are still live: the next registration is given
+    # an entry point that a live owner already holds (two owners, one entry point; the old owner's calls reach the new function)
+    rep.rule("R-C13-slot-writers", "in each bundled backend the per-slot key / entry tables are written only by impl_register_callback and impl_unregister_callback (or helpers reachable only from them)")
+    from .c12 import slot_layout, idx_store
+    from ..engine import Engine
+    n_scanned = 0
+    for db in dbs:
+        if db.label.startswith("model32"):
+            continue
+        regs = {}
+        for f in db.functions:
+            if f["sn"] == "impl_register_callback" and not f["dep"] and "body" in f and f.get("rid") is not None:
+                regs.setdefault(f["rid"], f)
+        for rid, rf in regs.items():
+            try:
+                lay = slot_layout(db, rf)
+            except Inconclusive:
+                continue
+            if "key" not in lay.pat or "fn" not in lay.pat:
+                continue
+            cls = rf["n"].rsplit("::", 1)[0]
+            allowed = {cls + "::impl_register_callback", cls + "::impl_unregister_callback"}
+            seen_fn = set()
+            for f in db.functions:
+                if f["dep"] or "body" not in f or f.get("rid") != rid or f["n"] in allowed or f["n"] in seen_fn or f.get("kind") in ("ctor", "dtor"):
+                    continue
+                seen_fn.add(f["n"])
+                try:
+                    ps = Engine(db).run(f)
+                except Inconclusive:
+                    continue
+                n_scanned += 1
+                inst = "%s | %s" % (db.label, f["full"][:150])
+                w = [(role, e) for p in ps for e in p.events for role in ("key", "fn") if idx_store(e, lay, role) is not None]
+                if w and not owners.reached_only_from(db, f["n"], allowed):
+                    role, e = w[0]
+                    rep.violation("R-C13-slot-writers", site(f) + " [slot tables]", "%s writes the backend's %s table (%s := %s) although it is neither registration nor unregistration: slots of owners that are still live "
+                                  "are handed out again (two owners, one entry point)" % (f["sn"], "key" if role == "key" else "entry", fmt(e.a)[:60], fmt(e.b)[:30]), e.loc or f["loc"], inst)
+                else:
+                    rep.ok("R-C13-slot-writers", site(f), "does not write the slot tables" if not w else "helper of registration / unregistration", inst)
+    rep.require(n_scanned >= 8, "only %d backend member functions scanned for slot-table writes (floor 8)" % n_scanned)
     for label, style in styles:
         if style.get("search") == "ordered" and style.get("removal") == "unordered":
             rep.violation("R-C13-register", SB + "::unregister_callback [ordered search]", "register_callback's duplicate test is a binary search over callback_keys, but unregister_callback removes keys by swapping with the last "
